@@ -20,6 +20,7 @@ def OP_ZDRC_IGNORE : Nat := 8
 inductive XErr
   | null     -- the C function returned NULL
   | fuel     -- the model ran out of fuel (the C would not terminate / overflow its stack)
+  | abort    -- the C called `bufr_abort` (documented implementation limit), a refusal
 deriving DecidableEq, Repr, Inhabited
 
 /-- result of an expansion: nodes plus the sticky `*errflg` -/
